@@ -791,6 +791,52 @@ def real_cli(args) -> List[Tuple[str, Dict[str, Any], str, Any]]:
     return fails
 
 
+def json_cli_fixed(args) -> List[Tuple[str, Dict[str, Any], str, Any]]:
+    """`python -m clematis validate --json FILE` is a CLI variant too: same verdict as the API, the API's messages
+    in its output, and never a traceback (an enumeration message contains braces, which the wrapper's JSON
+    extraction must survive)"""
+    wd, seed = args
+    from configs.validate import validate_config_verbose
+    docs = {"enum": {"t2": {"backend": "nosuch"}}, "enum2": {"scheduler": {"policy": "nosuch"}}, "range": {"t2": {"k_retrieval": 0}},
+            "two": {"t2": {"backend": "nosuch", "k_retrieval": 0}}, "valid": {"t2": {"k_retrieval": 3}}, "empty": {}}
+    d = os.path.join(wd, f"jsoncli_{os.getpid()}")
+    os.makedirs(d, exist_ok=True)
+    env = dict(os.environ)
+    env["PYTHONHASHSEED"] = str(seed)
+    env["PYTHONPATH"] = f"{VERIF_REPO}:/verif"
+    env.pop("CLEMATIS_CONFIG", None)
+    fails = []
+    for name, doc in docs.items():
+        try:
+            validate_config_verbose(copy.deepcopy(doc))
+            verdict, msgs = "accept", []
+        except Exception as e:  # noqa: BLE001
+            verdict, msgs = "reject", [m for m in str(e).splitlines() if m.strip()]
+        path = os.path.join(d, f"{name}.yaml")
+        with open(path, "w") as f:
+            import yaml
+            yaml.safe_dump(doc, f)
+        for variant, cmd in (("python -m clematis validate --json FILE", [sys.executable, "-m", "clematis", "validate", "--json", path]),
+                             ("python -m clematis.scripts.validate --json FILE", [sys.executable, "-m", "clematis.scripts.validate", "--json", path])):
+            p_ = subprocess.run(cmd, cwd=d, env=env, stdout=subprocess.PIPE, stderr=subprocess.PIPE, text=True, timeout=120)
+            both = p_.stdout + "\n" + p_.stderr
+            case = {"v": {}, "doc": doc, "variant": variant}
+            if "Traceback (most recent call last)" in both:
+                last = [ln for ln in p_.stderr.strip().splitlines() if ln.strip()][-1:]
+                fails.append(("TotalTyped", {"cause": "cli-json-traceback", "variant": variant.split(" FILE")[0]},
+                              f"[{name}] `{variant}` on {doc} ends in a traceback: {last}", case))
+                continue
+            if (p_.returncode == 0) != (verdict == "accept"):
+                fails.append(("SameVerdictAllApis", {"cause": "cli-json-verdict", "variant": variant.split(" FILE")[0]},
+                              f"[{name}] `{variant}` on {doc}: exit status {p_.returncode}, the API says {verdict}", case))
+            missing = [m for m in msgs if m.split(" ", 1)[0] not in both]
+            if verdict == "reject" and missing:
+                fails.append(("SameVerdictAllApis", {"cause": "cli-json-messages", "variant": variant.split(" FILE")[0]},
+                              f"[{name}] `{variant}` on {doc}: the API's messages {missing[:2]} do not appear in the output {both.strip()[:200]!r}", case))
+    shutil.rmtree(d, ignore_errors=True)
+    return fails
+
+
 # =============================================================================================
 # check
 # =============================================================================================
@@ -915,6 +961,7 @@ def check(run) -> None:
     from concurrent.futures import ThreadPoolExecutor
     with ThreadPoolExecutor(8) as ex:
         rc_outs = list(ex.map(real_cli, [(c, wd, 5 + i % 3) for i, c in enumerate(sel)]))
+    rc_outs.append(json_cli_fixed((wd, 5)))
     nreal = 0
     for fl in rc_outs:
         nreal += 1
